@@ -42,6 +42,27 @@ def gen_edge(g, ek=None, s=None, info_kind="spd", max_cond=1e8):
     return case
 
 
+def narrow_info(g, n):
+    """Whole-number symmetric diagonally dominant weights with entries in the upper half of a narrow dtype's range."""
+    rnd = g.rnd
+    dt = g.choice(["int8", "int16", "uint8", "int32", "float16", "float32", "bool", "int64"])
+    if dt == "bool":
+        return np.eye(n).tolist(), dt
+    hi = {"int8": 127, "int16": 32767, "uint8": 255, "int32": 2**31 - 1, "float16": 60000, "float32": 2**24, "int64": 2**53}[dt]
+    M = [[0.0] * n for _ in range(n)]
+    for i in range(n):
+        M[i][i] = float(rnd.randint(hi // 2 + 1, hi))
+        for j in range(i + 1, n):
+            if dt.startswith("float"):
+                M[i][j] = M[j][i] = float(rnd.choice([0, 0, 1, -1, 2]))
+            else:
+                lo = 0 if dt == "uint8" else -(hi // (4 * n))
+                M[i][j] = M[j][i] = float(rnd.choice([0, 0, 1, rnd.randint(lo, hi // (4 * n))]))
+    if dt == "float16":
+        M = np.array(M).astype(np.float16).astype(np.float64).tolist()
+    return M, dt
+
+
 def build_edge(case, ids=(0, 1)):
     """Build the real graphslam edge with its two vertices attached.  Returns (edge, v1, v2)."""
     ek = case["ek"]
@@ -50,6 +71,9 @@ def build_edge(case, ids=(0, 1)):
     from .graphgen import _layout
 
     info = _layout(np.array(case["info"], dtype=np.float64), case.get("layout", "C"))
+    if case.get("info_dtype"):
+        # the same (whole-number) weights handed over in a narrow dtype
+        info = np.array(case["info"], dtype=np.float64).astype(case["info_dtype"])
     z = gs.mk_pose(case["z"])
     if ek.startswith("odo:"):
         e = gs.EdgeOdometry([ids[0], ids[1]], info, z, [v1, v2])
